@@ -98,6 +98,7 @@ class Session:
         self.fps = []          # keep add_fp file objects alive
         self.backing = None    # bytes/fp of the image this session was opened from
         self.opened = False
+        self.model_errors = []
 
     # ---- life cycle ---------------------------------------------------------
     def new(self):
@@ -231,7 +232,12 @@ class Session:
         if out.ok:
             self.accepted.append(op)
             if apply_model and op['op'] in self.MODEL_OPS:
-                self.model.apply(op)
+                try:
+                    self.model.apply(op)
+                except (KeyError, TypeError, AttributeError) as e:
+                    # the library accepted an operation on something the model
+                    # does not have: recorded, decided by the caller
+                    self.model_errors.append((op, '%s: %s' % (type(e).__name__, e)))
         return out
 
     # ---- mastering ----------------------------------------------------------
